@@ -63,6 +63,10 @@ CHECKS = {
    text="property-based search with hostile strings; differential between revision 0 and the bash/zsh/fish/elvish renderings through an independent shell-word lexer (directive grammar, all data single-quoted, each candidate/completer exactly once); ~6% of cases sourced by a real bash with stubbed completion builtins and a canary file",
    note="no zsh/fish/elvish binaries in the sandbox: zsh text is executed under bash with stubs (shared quoting semantics), fish/elvish are checked against their line format; candidates/groups never contain tab/newline",
    tech="property-based testing + differential (revision 0 vs shell renderers) + lexer + execution in a sandboxed bash"),
+ "C16": dict(
+   text="property-based search over definitions whose texts carry HTML/roff/markdown injections; the three renderers must return; completeness against what the console help of every described level shows; HTML tag lexer (allowed tags, balance) and roff lexer (allowed requests and escapes) with a decode-and-find round trip for every injected text",
+   note="no groff/mandoc/HTML parser available: lexers written from the formats the renderers emit are the trusted base",
+   tech="property-based testing: validity lexers + round-trip (decode escapes, find the user's text) + completeness against --help"),
 }
 
 PENDING_REASON = "check not built yet in this session (designed in DESIGN.md section 4; property-based testing applies to it)"
